@@ -178,18 +178,21 @@ func init() {
 					store = &ss
 				}
 			}
-			var heads, reorgs []Site
+			var heads []Site
 			for _, s := range sitesOf(st) {
 				if strings.HasSuffix(s.CalleeName(), ".Send") && len(s.Args()) > 0 {
 					rt := term(s.Args()[0])
 					if strings.HasSuffix(rt, "s.newHeads") {
 						heads = append(heads, s)
 					}
-					if strings.HasSuffix(rt, "s.reorgFeed") {
-						reorgs = append(reorgs, s)
-					}
 				}
 			}
+			// the reorg notification may live in a helper of storeTask (extract-function refactoring)
+			reorgDeep := p.deepSites(st, func(s Site) bool {
+				return strings.HasSuffix(s.CalleeName(), ".Send") && len(s.Args()) > 0 && strings.HasSuffix(term(s.Args()[0]), "s.reorgFeed")
+			}, 2)
+			var reorgs []deepSite
+			reorgs = append(reorgs, reorgDeep...)
 			if store == nil || len(heads) != 1 {
 				c.viol("notify", "storeTask: newHeads.Send", p.Pos(fnPos(st)), fmt.Sprintf("expected exactly one newHeads.Send after Blockchain.Store (found %d)", len(heads)))
 			} else {
@@ -227,16 +230,16 @@ func init() {
 				c.check(len(h.Args()) > 1 && term(h.Args()[1]) == "committedBlock.Block" && store != nil && term(store.Args()[1]) == "committedBlock.Block", "notify", "storeTask: announced block = stored block", p.Pos(h.Pos()), "same value", "the announced block is not the stored block")
 			}
 			for _, r := range reorgs {
-				d := p.mustHoldAt(r.Instr)
-				ok1, miss := everyDisjunctHas(d, []string{"s.currReorg != nil"})
+				d := p.mustHoldDeep(r)
+				ok1, miss := everyDisjunctHas(d, []string{"s.currReorg != nil"}, []string{"^!", "s.currReorg == nil"})
 				ok2, _ := everyDisjunctHas(d, []string{"^!", ".Store(", "!= nil"})
 				reset := false
-				allInstrs(st, func(in ssa.Instruction) {
-					if stv, ok := in.(*ssa.Store); ok && strings.HasSuffix(term(stv.Addr), "s.currReorg") && isNilConst(stv.Val) && dominatesInstr(r.Instr, in) {
+				allInstrs(r.Site.Instr.Parent(), func(in ssa.Instruction) {
+					if stv, ok := in.(*ssa.Store); ok && strings.HasSuffix(term(stv.Addr), "s.currReorg") && isNilConst(stv.Val) && dominatesInstr(r.Site.Instr, in) {
 						reset = true
 					}
 				})
-				c.check(ok1 && ok2 && reset, "notify", "storeTask: reorgFeed.Send", p.Pos(r.Pos()), "sent after a successful Store under currReorg != nil, then reset", "reorg notification is not (only) sent for a pending reorg after the first successful store, or is not reset afterwards: "+miss)
+				c.check(ok1 && ok2 && reset, "notify", "storeTask: reorgFeed.Send", p.Pos(r.Site.Pos()), "sent after a successful Store under currReorg != nil, then reset", "reorg notification is not (only) sent for a pending reorg after the first successful store, or is not reset afterwards: "+miss)
 			}
 			if len(reorgs) != 1 {
 				c.viol("notify", "storeTask: reorgFeed.Send count", p.Pos(fnPos(st)), fmt.Sprintf("expected exactly one reorgFeed.Send, found %d", len(reorgs)))
@@ -252,7 +255,7 @@ func init() {
 					rt := term(s.Args()[0])
 					for _, feed := range []string{"newHeads", "reorgFeed"} {
 						if strings.HasSuffix(rt, "s."+feed) {
-							c.check(rootOf(fn).Name() == "storeTask" && fn.Parent() == nil, "notify", feed+".Send ← "+qname(fn), p.Pos(s.Pos()), "only storeTask produces on this feed", feed+" has a second producer: notifications could be emitted out of storage order")
+							c.check(p.calledOnlyFrom(fn, "storeTask", 0) && fn.Parent() == nil, "notify", feed+".Send ← "+qname(fn), p.Pos(s.Pos()), "only storeTask produces on this feed", feed+" has a second producer: notifications could be emitted out of storage order")
 						}
 					}
 				}
@@ -431,6 +434,46 @@ func c02SuccessionFirst(c *Ctx, rule string) {
 	}
 }
 
+// calledOnlyFrom: every (transitive, depth ≤ 3) caller of fn is rootName or a function that is itself only called from it.
+func (p *Prog) calledOnlyFrom(fn *ssa.Function, rootName string, depth int) bool {
+	if rootOf(fn).Name() == rootName {
+		return true
+	}
+	if depth > 3 {
+		return false
+	}
+	callers := p.callersOf(rootOf(fn))
+	if len(callers) == 0 {
+		return false
+	}
+	for _, s := range callers {
+		if !p.calledOnlyFrom(s.Instr.Parent(), rootName, depth+1) {
+			return false
+		}
+	}
+	return true
+}
+
+// calledOnlyFromAny: every call chain into fn (at most 3 levels up) starts in one of the named functions.
+func (p *Prog) calledOnlyFromAny(fn *ssa.Function, roots map[string]bool, depth int) bool {
+	if roots[rootOf(fn).Name()] {
+		return true
+	}
+	if depth > 3 {
+		return false
+	}
+	callers := p.callersOf(rootOf(fn))
+	if len(callers) == 0 {
+		return false
+	}
+	for _, s := range callers {
+		if !p.calledOnlyFromAny(s.Instr.Parent(), roots, depth+1) {
+			return false
+		}
+	}
+	return true
+}
+
 // c06RevertOnStoreStream: reverts are serialised with stores. revertTask is entered only from storeTask (which runs as a
 // callback of the verifier stream) or from a callback handed to that stream with Go — never directly from the fetcher's
 // callback, where it would run concurrently with the tail of the store of the same block (reorg{N} before newHead(N), and
@@ -484,7 +527,7 @@ func c06RevertOnStoreStream(c *Ctx) {
 	for _, s := range p.callersOf(rt) {
 		fn := s.Instr.Parent()
 		n++
-		ok := rootOf(fn).Name() == "storeTask" || passed(fn, 0)
+		ok := rootOf(fn).Name() == "storeTask" || passed(fn, 0) || p.calledOnlyFrom(fn, "storeTask", 0)
 		c.check(ok, "revert-on-store-stream", "revertTask ← "+qname(fn), p.Pos(s.Pos()), "called from storeTask or from a callback handed to the verifier stream", "revertTask is called directly from "+qname(fn)+", outside the stream that serialises stores: the revert can overtake the store of the same block (reorg notification before the new-head notification of a block that is already reverted; unsynchronised reorg bookkeeping)")
 	}
 	if n < 2 {
